@@ -1,5 +1,7 @@
 (* Publish/subscribe (pydsol/core/pubsub.py): executable model of EventType
-   metadata, Event / TimedEvent construction and EventProducer.
+   metadata, Event / TimedEvent construction and EventProducer - any number
+   of producers sharing event types and listeners (a listener notified by one
+   producer may operate on, and fire from, any other).
 
    Listeners are programs: a listener owns a queue of scripts (lists of
    producer operations); its k-th notification performs the k-th script from
@@ -195,6 +197,19 @@ Definition sub_remove_everywhere (l : nat) (m : submap) : submap :=
 Definition has_listeners (m : submap) : bool :=
   match m with [] => false | _ => true end.
 
+(* several producers: producer p owns the p-th map; a producer never touched
+   has the empty map *)
+Definition prods := list submap.
+Definition prod_subs (ps : prods) (p : nat) : submap := nth p ps [].
+
+Fixpoint upd_prod (p : nat) (f : submap -> submap) (ps : prods) : prods :=
+  match p, ps with
+  | O, [] => [f []]
+  | O, m :: r => f m :: r
+  | S p', [] => [] :: upd_prod p' f []
+  | S p', m :: r => m :: upd_prod p' f r
+  end.
+
 (* ====================================================================== *)
 (* Operations, observations, state                                         *)
 (* ====================================================================== *)
@@ -203,20 +218,21 @@ Inductive evspec :=
 | EvTimed (ts : tstamp) (et : arg) (c : content) (chk : bool)  (* TimedEvent(...) *)
 | EvNotAnEvent.                                                (* some other object *)
 
+(* p: the producer the method is called on *)
 Inductive op :=
-| OAdd (et l : arg)
-| ORemove (et l : arg)
-| ORemoveAll (et l : arg)           (* NoneArg = argument left at None *)
-| OHas
-| OFire (et : arg) (c : content) (chk : bool)
-| OFireTimed (ts : tstamp) (et : arg) (c : content) (chk : bool)
-| OFireEvent (e : evspec)           (* construct e, then fire_event(e) *)
-| OFireTimedEvent (e : evspec)      (* construct e, then fire_timed_event(e) *)
-| ORaise.                           (* raise RuntimeError (listener programs) *)
+| OAdd (p : nat) (et l : arg)
+| ORemove (p : nat) (et l : arg)
+| ORemoveAll (p : nat) (et l : arg)           (* NoneArg = argument left at None *)
+| OHas (p : nat)
+| OFire (p : nat) (et : arg) (c : content) (chk : bool)
+| OFireTimed (p : nat) (ts : tstamp) (et : arg) (c : content) (chk : bool)
+| OFireEvent (p : nat) (e : evspec)           (* construct e, then fire_event(e) *)
+| OFireTimedEvent (p : nat) (e : evspec)      (* construct e, then fire_timed_event(e) *)
+| ORaise.                                     (* raise RuntimeError (listener programs) *)
 
 (* ObsFire / ObsFireDone are ghost markers: invocation number i of
-   fire_event / fire_timed_event started with event ev while subs were the
-   subscribers of its type / returned normally.  They are erased before the
+   fire_event / fire_timed_event (on whichever producer) started with event ev
+   while subs were that producer's subscribers of its type / returned normally.  They are erased before the
    comparison with the implementation. *)
 Inductive obs :=
 | ObsFire (i : nat) (ev : event) (subs : list nat)
@@ -229,13 +245,16 @@ Inductive obs :=
 Definition scripts := list (list (list op)).   (* listener -> remaining scripts *)
 
 Record state := mkState {
-  st_subs : submap;
+  st_subs : prods;
   st_scripts : scripts;
   st_next : nat               (* ghost: number of the next fire invocation *)
 }.
 
-Definition set_subs (s : state) (m : submap) : state :=
-  mkState m (st_scripts s) (st_next s).
+Definition subs_of (s : state) (p : nat) : submap := prod_subs (st_subs s) p.
+
+(* apply f to producer p's map *)
+Definition on_prod (s : state) (p : nat) (f : submap -> submap) : state :=
+  mkState (upd_prod p f (st_subs s)) (st_scripts s) (st_next s).
 
 Fixpoint pop_script (l : nat) (scr : scripts) : list op * scripts :=
   match scr, l with
@@ -289,9 +308,9 @@ Fixpoint deliver_all (step : state -> op -> res) (i : nat) (ev : event) (s : sta
 
 (* fire_event / fire_timed_event after the isinstance check: iterate over a
    snapshot of the subscriber list *)
-Definition fire_ev (step : state -> op -> res) (s : state) (ev : event) : res :=
+Definition fire_ev (step : state -> op -> res) (s : state) (p : nat) (ev : event) : res :=
   let i := st_next s in
-  let ls := subscribers (st_subs s) (ev_type ev) in
+  let ls := subscribers (subs_of s p) (ev_type ev) in
   match deliver_all step i ev (mkState (st_subs s) (st_scripts s) (S i)) ls with
   | Done s' t => Done s' (ObsFire i ev ls :: t ++ [ObsFireDone i])
   | Raised k s' t => Raised k s' (ObsFire i ev ls :: t)
@@ -308,26 +327,26 @@ Definition make_spec (E : menv) (e : evspec) : option mk :=
 (* operations that never call a listener *)
 Definition pure_step (s : state) (o : op) : res :=
   match o with
-  | OAdd (Good et) (Good l) => Done (set_subs s (sub_add et l (st_subs s))) []
-  | OAdd (Good _) _ => Raised ENotListener s []
-  | OAdd _ _ => Raised ENotEventType s []
-  | ORemove (Good et) (Good l) => Done (set_subs s (sub_remove et l (st_subs s))) []
-  | ORemove (Good _) _ => Raised ENotListener s []
-  | ORemove _ _ => Raised ENotEventType s []
-  | ORemoveAll BadArg _ => Raised ENotEventType s []
-  | ORemoveAll _ BadArg => Raised ENotListener s []
-  | ORemoveAll NoneArg NoneArg => Done (set_subs s []) []
-  | ORemoveAll NoneArg (Good l) => Done (set_subs s (sub_remove_everywhere l (st_subs s))) []
-  | ORemoveAll (Good et) NoneArg => Done (set_subs s (sub_del et (st_subs s))) []
-  | ORemoveAll (Good et) (Good l) => Done (set_subs s (sub_remove et l (st_subs s))) []
-  | OHas => Done s [ObsHas (has_listeners (st_subs s))]
+  | OAdd p (Good et) (Good l) => Done (on_prod s p (sub_add et l)) []
+  | OAdd _ (Good _) _ => Raised ENotListener s []
+  | OAdd _ _ _ => Raised ENotEventType s []
+  | ORemove p (Good et) (Good l) => Done (on_prod s p (sub_remove et l)) []
+  | ORemove _ (Good _) _ => Raised ENotListener s []
+  | ORemove _ _ _ => Raised ENotEventType s []
+  | ORemoveAll _ BadArg _ => Raised ENotEventType s []
+  | ORemoveAll _ _ BadArg => Raised ENotListener s []
+  | ORemoveAll p NoneArg NoneArg => Done (on_prod s p (fun _ => [])) []
+  | ORemoveAll p NoneArg (Good l) => Done (on_prod s p (sub_remove_everywhere l)) []
+  | ORemoveAll p (Good et) NoneArg => Done (on_prod s p (sub_del et)) []
+  | ORemoveAll p (Good et) (Good l) => Done (on_prod s p (sub_remove et l)) []
+  | OHas p => Done s [ObsHas (has_listeners (subs_of s p))]
   | _ => Raised EUser s []            (* ORaise; fire ops are handled by exec *)
   end.
 
-Definition fire_mk (step : state -> op -> res) (s : state) (m : mk) : res :=
+Definition fire_mk (step : state -> op -> res) (s : state) (p : nat) (m : mk) : res :=
   match m with
   | MkErr k => Raised k s []
-  | MkOk ev => fire_ev step s ev
+  | MkOk ev => fire_ev step s p ev
   end.
 
 Fixpoint exec (E : menv) (fuel : nat) (s : state) (o : op) : res :=
@@ -335,21 +354,21 @@ Fixpoint exec (E : menv) (fuel : nat) (s : state) (o : op) : res :=
   | O => OutOfFuel
   | S f =>
       match o with
-      | OFire a c chk => fire_mk (exec E f) s (make_event E a c chk)
-      | OFireTimed ts a c chk => fire_mk (exec E f) s (make_timed E ts a c chk)
-      | OFireEvent e =>
+      | OFire p a c chk => fire_mk (exec E f) s p (make_event E a c chk)
+      | OFireTimed p ts a c chk => fire_mk (exec E f) s p (make_timed E ts a c chk)
+      | OFireEvent p e =>
           match make_spec E e with
           | None => Raised ENotEvent s []
-          | Some m => fire_mk (exec E f) s m
+          | Some m => fire_mk (exec E f) s p m
           end
-      | OFireTimedEvent e =>
+      | OFireTimedEvent p e =>
           match make_spec E e with
           | None => Raised ENotTimedEvent s []
           | Some (MkErr k) => Raised k s []
           | Some (MkOk ev) =>
               match ev_time ev with
               | None => Raised ENotTimedEvent s []
-              | Some _ => fire_ev (exec E f) s ev
+              | Some _ => fire_ev (exec E f) s p ev
               end
           end
       | _ => pure_step s o
@@ -391,7 +410,7 @@ Definition fuel_for (s : state) : nat := S (count_scripts (st_scripts s)).
 (* ====================================================================== *)
 (* what the harness observes on the real classes *)
 Inductive iobs :=
-| IDeliver (l et tag : nat) (ts : option tstamp)
+| IDeliver (i l et tag : nat) (ts : option tstamp)   (* i: ordinal of the delivering fire invocation *)
 | IHas (b : bool)
 | IRet
 | IRaiseEventError
@@ -401,7 +420,7 @@ Inductive iobs :=
 Definition erase1 (o : obs) : list iobs :=
   match o with
   | ObsFire _ _ _ | ObsFireDone _ => []
-  | ObsDeliver _ l ev => [IDeliver l (ev_type ev) (c_tag (ev_content ev)) (ev_time ev)]
+  | ObsDeliver i l ev => [IDeliver i l (ev_type ev) (c_tag (ev_content ev)) (ev_time ev)]
   | ObsHas b => [IHas b]
   | ObsRet => [IRet]
   | ObsRaise k => [if is_event_error k then IRaiseEventError else IRaiseUser]
@@ -421,8 +440,8 @@ Definition ots_eqb (a b : option tstamp) : bool :=
 
 Definition iobs_eqb (a b : iobs) : bool :=
   match a, b with
-  | IDeliver l et tag ts, IDeliver l' et' tag' ts' =>
-      Nat.eqb l l' && Nat.eqb et et' && Nat.eqb tag tag' && ots_eqb ts ts'
+  | IDeliver i l et tag ts, IDeliver i' l' et' tag' ts' =>
+      Nat.eqb i i' && Nat.eqb l l' && Nat.eqb et et' && Nat.eqb tag tag' && ots_eqb ts ts'
   | IHas x, IHas y => Bool.eqb x y
   | IRet, IRet => true
   | IRaiseEventError, IRaiseEventError => true
